@@ -163,13 +163,27 @@ def run_real(desc, fmt):
 
 
 def desc_of_world(world, annotated=False):
-    """repository for a counterexample of the msym summary: chain h(k-1) <- ... <- h0 = HEAD, u = a side commit on the root"""
-    k = world['commits']
-    commits = [(k - 1 - i, [k - i] if i else []) for i in range(k)]          # ids: k-1 (root) .. 0 (HEAD)
-    commits.append((k, [k - 1]))                                             # unreachable side commit
-    tags = {t: (loc, annotated) for t, loc in world['tags'].items() if loc >= 0}
+    """repository for a counterexample of the msym summary: the commits of the shape (parents first), commit dates
+    decreasing along the listing order of the counterexample (so a date-ordered listing reproduces it), u = a side
+    commit on the root"""
+    import c02
+    par = c02.SHAPES[world.get('shape') or 'lin%d' % world['commits']]
+    k = len(par)
+    order = world.get('order') or list(range(k))
+    pos = {c: i for i, c in enumerate(order)}
+    done, commits = set(), []
+    while len(done) < k:                       # parents first
+        for c in sorted(par, reverse=True):
+            if c not in done and all(p in done for p in par[c]):
+                commits.append((c, list(par[c])))
+                done.add(c)
+    root = [c for c in par if not par[c]][0]
+    commits.append((k, [root]))                                             # unreachable side commit
+    dates = {c: 1_600_000_000 + 1000 * (k - pos[c]) for c in par}
+    dates[k] = 1_500_000_000
+    tags = {t: (loc, annotated or t in (world.get('annotated') or [])) for t, loc in world['tags'].items() if loc >= 0}
     br = world.get('branch')
-    return dict(commits=commits, head=0, branch=br if br else None, side={'side': k}, tags=tags,
+    return dict(commits=commits, head=0, branch=br if br else None, side={'side': k}, tags=tags, dates=dates,
                 dirty='untracked' if world.get('status') else None)
 
 
